@@ -216,6 +216,28 @@ def check(rep):
     for _ in range(40 if quick else 2000):
         a, b = round(rnd.uniform(1, 60), rnd.choice([3, 5, 9])), round(rnd.uniform(1, 39), rnd.choice([3, 4, 7]))
         run("system", gbigsmiles.System, dump_sys, f"CCO.|{a}%|CCN.|{b}%|CCC" if rnd.random() < 0.5 else f"CCO.|{a * 10}|CCN.|{b}%|", False, source="decimals")
+    # mixture specifiers WITHOUT a number (accepted with a warning: "the system will not be generable"), and numbers in every float syntax
+    import warnings
+    with warnings.catch_warnings():
+        warnings.simplefilter("ignore")
+        for text in ["CC.|x|", "CCO.|.|", "CC.| |", "C{[$][$]CC[$][$]}|gauss(100, 10)|C.|n/a|", "CC.|1,5|", "CC.|5 g|"]:
+            run("molecule", gbigsmiles.Molecule, dump_mol, text, False, source="mixture_without_number")
+        for text in ["CC.|x|CCO.|10|", "CCO.|10|CC.|?|", "CC.|x|CCO.|y|"]:
+            run("system", gbigsmiles.System, dump_sys, text, False, source="mixture_without_number")
+        for num in [".5", "5.", "5e-1", "+7", "1_0", " 2.50 ", "0", "1e2", "12.5", "0.30000000000000004", "1e-12"]:
+            run("molecule", gbigsmiles.Molecule, dump_mol, f"CCO.|{num}|", False, source="mixture_number_syntax")
+            run("molecule", gbigsmiles.Molecule, dump_mol, f"CCO.|{num}%|", False, source="mixture_number_syntax")
+    # hypothesis of C01_mixture_round_trip / C01_descriptor_round_trip on the real float printer: repr reads back, is not empty, has no blank, bar,
+    # bracket or percent sign
+    n_repr = 0
+    for _ in range(2000 if quick else 100000):
+        x = rnd.choice([rnd.uniform(0, 100), rnd.uniform(0, 1e6), 10 ** rnd.uniform(-12, 22), float(rnd.randrange(0, 100000)), rnd.random() / 3])
+        r = repr(float(x))
+        n_repr += 1
+        if float(r) != x or not r or any(c in r for c in " |[]%"):
+            rep.fail("oracle", f"the float printer does not meet the hypothesis of the round-trip theorems on {x!r}: {r!r}", {"layer": "float_printer", "text": r},
+                     expected="reads back; no blank, bar, bracket, percent sign", observed=r)
+    rep.coverage["float_printer_hypothesis_checked"] = n_repr
     rep.coverage.update({"evaluations": evaluations, "accepted_strings": accepted, "accepted_by_layer": by_layer, "distinct_nontrivial": len(distinct),
                          "documented_corpus": len(corpus),
                          "rule": "the 119 strings quoted in README / SI.md / tests, then descriptors, token ASTs, molecules of every archetype (structured generator + AST "
